@@ -402,9 +402,10 @@ def run_check(chk: Check, tier: str, seed: int, workers: int, runs=None, wall=No
         print(f"[{chk.id}] LOST-BATCHES: {len(total['lost_batches'])} batch(es) {total['lost_batches'][:5]} were dropped because a "
               f"worker died twice on them (wall-clock backstop for a single run, or an interpreter crash); their runs are "
               f"not counted", flush=True)
-        if len(total["lost_batches"]) > max(3, total["scheduled"] // 20):
-            print(f"[{chk.id}] HARNESS-ERROR: too many lost batches")
-            return 2
+    # many lost batches alone are a harness problem (exit 2) -- unless the batches that did complete contain violations that
+    # reproduce from their replay files: a change that makes runs spin SLOWLY (each step expensive) kills workers by the
+    # wall-clock backstop and, in the runs that reach their step budget, is reported as what it is
+    too_many_lost = len(total["lost_batches"]) > max(3, total["scheduled"] // 20)
     if total["errors"]:
         e = total["errors"][0]
         print(f"[{chk.id}] HARNESS-ERROR in run {e['run']}: {e['error']}\n{e['tb']}", flush=True)
@@ -503,6 +504,9 @@ def run_check(chk: Check, tier: str, seed: int, workers: int, runs=None, wall=No
     write_evidence(chk, tier, seed, total, len(new_paths), known_hits, extra=dict(not_reproducible=len(unrepro)))
     if new_paths:
         return 1
+    if too_many_lost:
+        print(f"[{chk.id}] HARNESS-ERROR: too many lost batches")
+        return 2
     if harness_bad or unrepro:
         print(f"[{chk.id}] HARNESS-ERROR: violations were reported but none could be reproduced from its replay file")
         return 2
